@@ -10,6 +10,7 @@ import KafkaVerif.Base.Proto
 import KafkaVerif.Model.Commit
 import KafkaVerif.Model.GroupStart
 import KafkaVerif.Model.Group
+import KafkaVerif.Model.GroupFront
 
 namespace KV.OracleC03
 open KV KV.Commit
@@ -359,6 +360,85 @@ def opGTrace (evs : String) : String :=
     s!"model={m} holds={if ms.isEmpty then 1 else 0}"
   | none => s!"bad-op {(toks.find? (fun t => (parseGTok t).isNone)).getD "?"}"
 
+/-! ### the Reader front on recorded executions (RF.* hooks): start:<tag>:<offset> | acc:<sampled>:<tag>:<offset> | drop:<sampled>:<tag> -/
+
+inductive FTok
+  | start (t o : Nat)
+  | acc (v t o : Nat)
+  | drop (v t : Nat)
+
+def parseFTok (tok : String) : Option FTok :=
+  match tok.splitOn ":" with
+  | ["start", t, o] => do some (.start (← t.toNat?) (← o.toNat?))
+  | ["acc", v, t, o] => do some (.acc (← v.toNat?) (← t.toNat?) (← o.toNat?))
+  | ["drop", v, t] => do some (.drop (← v.toNat?) (← t.toNat?))
+  | _ => none
+
+/-- model side: replay as `subscribe / enqueue / recv` of Model/GroupFront.lean with the sampled version taken from the
+event (the enqueue is placed right before its receive: the hook order of enqueue vs receive is not reliable);
+`strictEq = false`.  Rejects when the model would drop what was accepted, accept what was dropped, or return another offset. -/
+def fAccept : GroupFront.GF → List FTok → Nat → Option (Nat × String)
+  | _, [], _ => none
+  | s, t :: ts, i =>
+    match t with
+    | .start tag o =>
+      if tag == s.version + 1 then
+        match GroupFront.fstep false s (.subscribe o) with
+        | some s' => fAccept s' ts (i + 1) | none => some (i, "subscribe")
+      else if tag == s.version then fAccept s ts (i + 1)   -- further partitions of the same generation
+      else some (i, s!"version-jump model={s.version}")
+    | .acc v tag o =>
+      match GroupFront.fstep false { s with sampled := none, queue := [] } (.enqueue tag) with
+      | some s1 =>
+        if v > s.version then some (i, "sampled-version-from-the-future") else
+        match GroupFront.fstep false { s1 with sampled := some v } .recv with
+        | some s2 =>
+          if s2.out.getLast? == some (tag, o) && s2.out.length == s.out.length + 1 then fAccept s2 ts (i + 1)
+          else some (i, s!"accepted-offset model-next={s.start tag + s.sent tag}")
+        | none => some (i, "recv")
+      | none => some (i, "enqueue-of-unknown-generation")
+    | .drop v tag =>
+      match GroupFront.fstep false { s with sampled := none, queue := [] } (.enqueue tag) with
+      | some s1 =>
+        match GroupFront.fstep false { s1 with sampled := some v } .recv with
+        | some s2 => if s2.out.length == s.out.length then fAccept s2 ts (i + 1) else some (i, "dropped-but-model-accepts")
+        | none => some (i, "recv")
+      | none => some (i, "enqueue-of-unknown-generation")
+
+def fscan (f : List FTok → FTok → Option String) : List FTok → List FTok → Nat → Option String
+  | _, [], _ => none
+  | past, e :: es, i =>
+    match f past e with
+    | some msg => some s!"{msg}@{i}"
+    | none => fscan f (e :: past) es (i + 1)
+
+/-- spec side: a message of generation `tag` is discarded only by a call that sampled a NEWER version; the accepted
+offsets of one generation are consecutive from its start -/
+def monFront (es : List FTok) : Option String :=
+  fscan (fun past e =>
+    match e with
+    | .drop v t => if t < v then none else some s!"record-of-live-generation-discarded:tag{t}:sampled{v}"
+    | .acc v t o =>
+      if t < v then some s!"stale-record-accepted:tag{t}:sampled{v}" else
+      match past.find? (fun p => match p with | .acc _ t' _ => t' == t | .start t' _ => t' == t | _ => false) with
+      | some (.acc _ _ o') => if o == o' + 1 then none else some s!"front-gap:tag{t}:{o'}->{o}"
+      | some (.start _ st) => if o == st then none else some s!"front-gap-at-start:tag{t}:{st}->{o}"
+      | _ => some s!"accept-without-start:tag{t}"
+    | _ => none) [] es 0
+
+def opFTrace (evs : String) : String :=
+  let toks := evs.splitOn ";"
+  match toks.mapM parseFTok with
+  | some es =>
+    -- a group Reader starts at version 1 (NewReader), its first generation is tagged 2
+    let acc := match fAccept { version := 1 } es 0 with
+      | none => "ok"
+      | some (i, why) => s!"reject@{i}:{why}"
+    let ms := [monFront es].filterMap id
+    let m := if ms.isEmpty then acc else acc ++ " mon=" ++ ",".intercalate ms
+    s!"model={m} holds={if ms.isEmpty then 1 else 0}"
+  | none => s!"bad-op {(toks.find? (fun t => (parseFTok t).isNone)).getD "?"}"
+
 def answer (line : String) : String :=
   match line.splitOn " => " with
   | [req, impl] =>
@@ -368,6 +448,7 @@ def answer (line : String) : String :=
     | ["assign", start, topics, subs, resp] => opAssign start topics subs resp impl
     | ["ctrace", mode, evs] => opTrace mode evs
     | ["gtrace", _tp, evs] => opGTrace evs
+    | ["ftrace", evs] => opFTrace evs
     | ["assignerr", _code] =>
       -- a failed OffsetFetch never yields assignments (hypothesis of start_at_committed)
       s!"model=err holds={if impl == "err" then 1 else 0}"
